@@ -36,5 +36,12 @@ mod verif_witness_status {
             let r = infer_grpc_status(None, http::StatusCode::from_u16(sc).unwrap());
             assert_eq!(r.err().flatten().map(|s| s.code()), Some(want), "HTTP {}", sc);
         }
+        // the whole HTTP status range against the mapping table of the statement (200 alone means "no error")
+        for sc in 100u16..600 {
+            let want = match sc { 200 => None, 400 => Some(Code::Internal), 401 => Some(Code::Unauthenticated), 403 => Some(Code::PermissionDenied),
+                404 => Some(Code::Unimplemented), 429 | 502 | 503 | 504 => Some(Code::Unavailable), _ => Some(Code::Unknown) };
+            let r = infer_grpc_status(None, http::StatusCode::from_u16(sc).unwrap());
+            assert_eq!(r.err().flatten().map(|s| s.code()), want, "HTTP {}", sc);
+        }
     }
 }
